@@ -373,10 +373,7 @@ def gen_key(kind, created, seed_octets):
     ecdh = kind.startswith('ecdh_')
     cname = kind[5:] if ecdh else kind
     crv = _EC[cname]()
-    order = {'p256': 0xFFFFFFFF00000000FFFFFFFFFFFFFFFFBCE6FAADA7179E84F3B9CAC2FC632551,
-             'p384': 0xFFFFFFFFFFFFFFFFFFFFFFFFFFFFFFFFFFFFFFFFFFFFFFFFC7634D81F4372DDF581A0DB248B0A77AECEC196ACCC52973,
-             'p521': 0x01FFFFFFFFFFFFFFFFFFFFFFFFFFFFFFFFFFFFFFFFFFFFFFFFFFFFFFFFFFFFFFFFFFFFFFFFFFFFFFFFFFFFFFFFFFFA51868783BF2F966B7FCC0148F709A5D03BB5C9B8899C47AEBB6FB71E91386409,
-             'secp256k1': 0xFFFFFFFFFFFFFFFFFFFFFFFFFFFFFFFEBAAEDCE6AF48A03BBFD25E8CD0364141}[cname]
+    order = algo.EC_ORDERS[cname]
     d = int.from_bytes(seed_octets, 'big') % (order - 1) + 1
     priv = ec.derive_private_key(d, crv)
     pt = priv.public_key().public_bytes(serialization.Encoding.X962, serialization.PublicFormat.UncompressedPoint)
